@@ -67,6 +67,23 @@ func init() {
 		"ext4.(*File).Read: non-negativity of the per-extent byte count and progress (see unclaimed_obligations)",
 		"sequences of calls (each call is specified against the handle state it starts from)",
 	}
+	propAssumptions["C11"] = []string{
+		"ro(x) is the ghost predicate 'x.Writable() returns an error'. It is proved for file.rawBackend (readOnly flag) and for backend.SubStorage (propagation), assumed for any other backend.Storage implementation; backend.Sub links ro(view) to ro(underlying) by a trusted contract",
+		"device writes are WRITE events, logged at every io.WriterAt.WriteAt call; a callee or loop from which no WriteAt/Truncate call is reachable in the static call graph (interface methods resolved by name to repository implementations, function values by type) appends no WRITE event - this effect inference is syntactic and over-approximate",
+		"a device writer converted to io.Writer/any inside repository code, or handed to a function outside the repository, is treated as a possible write (event log havocked)",
+		"fields never assigned after construction (e.g. fat12.FileSystem.backend) keep their value across unknown calls: established by a whole-repository scan of stores and escaping field addresses; unsafe, reflect and assembly are not analysed",
+		"Go type safety: a *T or []T does not point into an object allocated as a struct type that contains no T",
+		"functions marked nosafety are verified for executions that do not panic (panics are the subject of C18)",
+		"os.OpenFile honours its flags (O_RDONLY opens cannot write)",
+	}
+	propNotDecided["C11"] = []string{
+		"'no byte of the image changes' is decided as 'no WRITE event is issued'; writes by other processes or through the OS file obtained from Sys() are outside the model",
+		"ext4: Create on a read-only backend and the ext4 mutators (Mkdir, OpenFile, Write, Remove, Rename, Chmod, Chown, Chtimes, Symlink, SetLabel) are not under contract (only ext4.Read, (*File).Read and initGroupDescriptorTables are); disk.CreateFilesystem is proved for every type but ext4",
+		"fat32-specific SetLabel/writeBootSector/writeFsis and fat12.(*FileSystem).SetLabel/Chtimes/SetArchiveBit: they reach the device through function-valued hooks (WriteBootSectorFn/AfterWriteFAT) that are not under contract",
+		"FAT Mkdir of an existing directory returns nil on a read-only backend (nothing to do, nothing written): treated as a non-mutating call; FAT OpenFile for writing on a read-only backend returns no error (known finding D25)",
+		"iso9660/squashfs with a workspace (not finalized) write to the OS workspace directory, not to the image: not part of the property",
+		"arbitrary interleavings: each entry point is specified against any state it can start from (fs.backend stable), which covers every sequential history; concurrent use is C17",
+	}
 	propAssumptions["C12"] = []string{"partition.Read: GPT is probed before MBR (call-site assertions); filesystem probing in disk.GetFilesystem is not under contract"}
 	propNotDecided["C12"] = []string{"filesystem type recognition (disk.GetFilesystem and the per-filesystem Read acceptance tests)", "stale bytes of a previous filesystem", "labels and contents"}
 }
